@@ -41,6 +41,7 @@ def run(ctx):
     for be in (("asm", "c64", "c32", "generic") if ctx.thorough else ("asm", "c32")):
         for cc in ("gcc", "clang"):
             configs.append((be, D, False, cc, "-O2", ("-U__SIZEOF_SIZE_T__",)))
+            configs.append((be, D, False, cc, "-O2", ("-DNDEBUG",)))      # assertion-free builds (RelWithDebInfo / MinSizeRel define it)
     results = {}
 
     def one(c):
